@@ -208,6 +208,35 @@ namespace xv
                 x &= M;
             out.push_back(mk("Ls x exponents", { V, Alpha::of(e).odd() }, 1));
         }
+        else if (key == "mask1")
+        {
+            SubSpace s;
+            s.label = "every 16-bit mask value (lanes 0..15), structured upper lanes";
+            s.al.resize(1);
+            s.mask_kind = 1;
+            s.mask_groups = 1ull << 16;
+            s.finish();
+            out.push_back(s);
+        }
+        else if (key == "mask2" || key == "mask2s")
+        {
+            SubSpace s;
+            s.label = "all pairs of 8-bit masks (lanes 0..7), structured upper lanes";
+            s.al.resize(2);
+            s.mask_kind = 2;
+            s.mask_groups = 1ull << 16;
+            s.finish();
+            out.push_back(s);
+            if (key == "mask2s")
+                return out;
+            SubSpace u;
+            u.label = "every 16-bit mask x 16 special partners";
+            u.al.resize(2);
+            u.mask_kind = 3;
+            u.mask_groups = T.thorough ? (1ull << 20) : (1ull << 18);
+            u.finish();
+            out.push_back(u);
+        }
         else if (key == "mask_un")
         {
             out.push_back(mk("{0,1} x lanes", { bool_alpha() }, ML));
